@@ -1,6 +1,7 @@
 package main
 
 import (
+	"context"
 	"encoding/json"
 	"fmt"
 	"os"
@@ -9,6 +10,7 @@ import (
 	"sort"
 	"strings"
 	"sync"
+	"time"
 )
 
 // Self-test (thorough tier): a frozen catalogue of seeded mutants is applied,
@@ -141,7 +143,9 @@ func runBenign(self, repo, verif, oracle, prop string, e benignEdit) selfResult 
 		r.Status, r.Detail = "skipped", "does not build: "+firstLine(string(out))
 		return r
 	}
-	cmd := exec.Command(self, "-p", prop, "-tier", "quick", "-repo", tree, "-verif", vdir, "-oracle", oracle)
+	ctx, cancel := context.WithTimeout(context.Background(), 15*time.Minute)
+	defer cancel()
+	cmd := exec.CommandContext(ctx, self, "-p", prop, "-tier", "quick", "-repo", tree, "-verif", vdir, "-oracle", oracle)
 	cmd.Env = env
 	out, err := cmd.CombinedOutput()
 	txt := string(out)
@@ -273,7 +277,9 @@ func runMutant(self, repo, verif, oracle, prop string, m mutant) selfResult {
 	if m.Rule != "" {
 		args = append(args, "-rule", m.Rule)
 	}
-	cmd := exec.Command(self, args...)
+	ctx, cancel := context.WithTimeout(context.Background(), 15*time.Minute)
+	defer cancel()
+	cmd := exec.CommandContext(ctx, self, args...)
 	cmd.Env = env
 	out, _ := cmd.CombinedOutput()
 	txt := string(out)
